@@ -21,6 +21,7 @@ EXPLANATION = (
     "config_context, which polars validate enters on every call, restores the outer configuration in a finally. (R7) an instance attribute re-bound from a registry during validation (Check._check_fn) is re-bound only under a test of its current value, so a user function that shares its name with a built-in is never replaced. " 
     "NOT decided: verdict "
     "stability on probe frames; mutations performed by user callbacks."
+    " (R8) no method of a check backend (subclasses of BaseCheckBackend, pyspark excluded) outside __init__ assigns, augments, deletes or setattr-s through `self.check` - the backend is built per call around the schema's own Check object, and the dynamic get_backend dispatch hides such writes from the effect engine."
 )
 LEVEL_RULE = "one obligation per write site reaching a shared schema/check/dtype object from an observer entry"
 FLOORS = {"R1": 10, "R2": 4, "R3": 1, "R4": 10, "R5": 1, "R6": 1, "R7": 1}
@@ -241,6 +242,61 @@ def r7_registry_rebinding_is_guarded_by_the_value(ctx):
         raise AnalysisError("no registry re-binding of an instance attribute found (expected Check.__call__)")
 
 
+def r8_check_backends_never_write_the_check(ctx):
+    """A check backend is created per call around the schema's own Check object (`self.check`).  Whatever it has to remember
+    while it prepares the data belongs to the backend or to locals: a store through `self.check` changes the shared check -
+    the schema no longer equals its snapshot and later verdicts depend on the history (Hypothesis.groups, written while a
+    Series is validated, restricts the groups of every later grouped validation).  Decided: in every subclass of
+    BaseCheckBackend no assignment / augmented assignment / del / setattr targets an attribute chain rooted at
+    `self.check` outside `__init__`."""
+    ix = ctx.ix
+    base = ix.cls("pandera/backends/base/__init__.py::BaseCheckBackend")
+    n_cls = 0
+    for c in [base] + base.all_subclasses():
+        if "/pyspark/" in c.module.path:
+            continue
+        n_cls += 1
+        for f in [x for lst in c.methods.values() for x in lst]:
+            if f.name in ("__init__", "__new__"):
+                continue
+            for st in walk_no_nested_nodes(f.node):
+                targets = []
+                if isinstance(st, ast.Assign):
+                    targets = st.targets
+                elif isinstance(st, (ast.AugAssign, ast.AnnAssign)):
+                    targets = [st.target]
+                elif isinstance(st, ast.Delete):
+                    targets = st.targets
+                elif isinstance(st, ast.Expr) and isinstance(st.value, ast.Call) and callee_last(st.value) in ("setattr", "delattr") and st.value.args:
+                    targets = [ast.Attribute(value=st.value.args[0], attr="?", ctx=ast.Store())]
+                for t in targets:
+                    root = t
+                    chain = []
+                    while isinstance(root, (ast.Attribute, ast.Subscript)):
+                        chain.append(root)
+                        root = root.value
+                    through_check = any(isinstance(x, ast.Attribute) and x.attr == "check" and isinstance(x.value, ast.Name) and x.value.id == "self"
+                                        for x in chain[1:] + ([chain[0].value] if chain and isinstance(chain[0], ast.Attribute) and isinstance(chain[0].value, ast.Attribute) else []))
+                    if through_check:
+                        ctx.touched(f)
+                        ctx.ob("R8", f, f"{f.short}: no store through the shared Check object", False,
+                               f"`{txt(st)[:70]}` writes the schema's own check while it is being applied: a passing validation changes the schema (it no longer equals a "
+                               "snapshot) and later verdicts depend on what was validated before", f.loc(st))
+    ctx.ob("R8", base.lookup("__init__") or list(base.methods.values())[0][0], "check backends inspected for stores through self.check", n_cls >= 3, f"{n_cls} backend classes")
+    if n_cls < 3:
+        raise AnalysisError(f"check backend classes found: {n_cls}")
+
+
+def walk_no_nested_nodes(fn):
+    todo = list(fn.body)
+    while todo:
+        x = todo.pop()
+        yield x
+        for c_ in ast.iter_child_nodes(x):
+            if not isinstance(c_, (ast.FunctionDef, ast.AsyncFunctionDef, ast.ClassDef, ast.Lambda)):
+                todo.append(c_)
+
+
 def run(ctx):
     r5_setstate(ctx)
     r1_who_may_write(ctx)
@@ -248,6 +304,7 @@ def run(ctx):
     r3_cache(ctx)
     r4_transforms(ctx)
     r7_registry_rebinding_is_guarded_by_the_value(ctx)
+    r8_check_backends_never_write_the_check(ctx)
     # R6: hidden state outside the schema object - the context configuration that polars validate overrides per call
     from .c06 import config_context_restore
     config_context_restore(ctx, "R6")
